@@ -89,6 +89,8 @@ def _xforms(d):
         X["flatten-d1"] = lambda T: T.flattenRanks(depth=1)
         X["flatten-l2"] = lambda T: T.flattenRanks(levels=2)
         X["swizzle-rot"] = lambda T: T.swizzleRanks(T.getRankIds()[1:] + T.getRankIds()[:1])
+        # a partial swizzle leaves the trailing rank(s) in place
+        X["swizzle-top2"] = lambda T: T.swizzleRanks([T.getRankIds()[1], T.getRankIds()[0]] + T.getRankIds()[2:])
     return X
 
 
